@@ -471,6 +471,9 @@ class SyncObj(object):
                 if changeClusterRequest is None or self.__changeCluster(changeClusterRequest):
 
                     self.__raftLog.add(command, idx, term)
+                    if changeClusterRequest is not None:
+                        # further cluster changes are refused until this one is applied
+                        self.__changeClusterIDx = idx
 
                     if requestNode is None:
                         if callback is not None:
@@ -1170,6 +1173,8 @@ class SyncObj(object):
         idx, term = self.__getCurrentLogIndex() + 1, self.__raftCurrentTerm
         self.__raftLog.add(_bchr(_COMMAND_TYPE.NO_OP), idx, term)
         self.__noopIDx = idx
+        # cluster changes accepted during an earlier leadership precede the no-op
+        self.__changeClusterIDx = None
         if not self.__conf.appendEntriesUseBatch:
             self.__sendAppendEntries()
 
